@@ -261,6 +261,16 @@ fn compare(op: Bin, l: &RVal, r: &RVal) -> Ev {
             Some(o) => Some(o.reverse()),
             None => return Ev::Open("NaN in comparison"),
         },
+        (RVal::Array(x), RVal::Array(y)) if {
+            let tx = x.iter().find(|v| !v.is_null()).map(type_of);
+            let ty = y.iter().find(|v| !v.is_null()).map(type_of);
+            tx.is_none() || ty.is_none() || tx != ty
+        } =>
+        {
+            let tx = x.iter().find(|v| !v.is_null()).map(type_of);
+            let ty = y.iter().find(|v| !v.is_null()).map(type_of);
+            return if tx.is_some() && ty.is_some() { Ev::NoValue("arrays of different element types") } else { Ev::Open("array whose element type is not evident") };
+        }
         (RVal::Bool(_), RVal::Bool(_)) | (RVal::Array(_), RVal::Array(_)) => {
             return match op {
                 Bin::Eq => Ev::Val(RVal::Bool(ref_eq(l, r))),
